@@ -667,10 +667,13 @@ impl JoinPlanner {
                 }
             }
 
-            // Build output schema (union of variables, shared vars once)
+            // Build output schema exactly as the join operator produces it:
+            // all left columns, then the non-key columns of the right side.
+            // (A right column that repeats an already-present variable, e.g. the
+            // second X of `e(X, X)`, is NOT a key column and stays in the output.)
             let mut output_schema = current_schema.clone();
-            for var in &next_schema {
-                if !output_schema.contains(var) {
+            for (j, var) in next_schema.iter().enumerate() {
+                if !right_keys.contains(&j) {
                     output_schema.push(var.clone());
                 }
             }
